@@ -759,6 +759,23 @@ theorem response_cap_boundary (n b : Nat) (hb : b < 256) (hn : n < 1844674407370
 
 end Messages
 
+/-! ### the type stored under each kind is the type the code deserialises -/
+
+/-- **payload_types_tied**: `payloadSchema k` is the schema of the Rust type named `payloadTypeName k`; these eight names are
+EXACTLY the type arguments of the `try_deserialize_record` calls in the node's and the networking layer's record paths
+(regenerated by rs2lean: a new call with another type, or a kind's type no longer deserialised anywhere, breaks this); and the
+newtype wrappers on the wire (`EncodedPeerId`, `ChunkAddress`, `TransactionAddress`, `ChunkProof`) are single-field tuple
+structs with derived serde impls (rs2lean refuses attributes / hand-written impls), i.e. transparent.  Which call site sits
+under which kind's match arm is NOT read from the source (tied by the `rec` / `recdec` correspondence only). -/
+theorem payload_types_tied :
+    (∀ k, schemaOfRust (payloadTypeName k) = some (payloadSchema k)) ∧
+    RecordKind.all.all (fun k => SafeNet.Gen.WireShape.deserializeRecordTypes.contains (payloadTypeName k)) = true ∧
+    SafeNet.Gen.WireShape.deserializeRecordTypes.all (fun t => RecordKind.all.any (fun k => payloadTypeName k == t)) = true ∧
+    SafeNet.Gen.WireShape.struct_EncodedPeerId = ["0"] ∧ SafeNet.Gen.WireShape.struct_ChunkAddress = ["0"] ∧
+    SafeNet.Gen.WireShape.struct_TransactionAddress = ["0"] ∧ SafeNet.Gen.WireShape.struct_ChunkProof = ["0"] := by
+  refine ⟨?_, by decide, by decide, by decide, by decide, by decide, by decide⟩
+  intro k; cases k <;> rfl
+
 /-! ### a paid chunk's address cannot be forged either -/
 
 /-- **paid_chunk_addr_recomputed**: a `(ProofOfPayment, Chunk)` record (kind `ChunkWithPayment`), whatever address its chunk
@@ -923,3 +940,4 @@ end SafeNet.Props.C12
 #print axioms SafeNet.Props.C12.honest_replicate_roundtrips_partial
 #print axioms SafeNet.Props.C12.response_cap_boundary
 #print axioms SafeNet.Props.C12.paid_chunk_addr_recomputed
+#print axioms SafeNet.Props.C12.payload_types_tied
